@@ -1,5 +1,7 @@
 import MwVerif.Lemmas.Tree.Replace
+import MwVerif.Model.Passes
 import MwVerif.Gen.Cleaner
+import MwVerif.Lemmas.Passes.FixParagraphs
 /-!
 # C06 — every cleaning pass completes
 
@@ -15,14 +17,6 @@ namespace MwVerif.Tree
 theorem c06_passes_are_methods : Gen.Cleaner.passes.all (fun p => p.2) = true := by decide +kernel
 
 theorem c06_called_names_exist : Gen.Cleaner.calls.all (fun c => c.2.2) = true := by decide +kernel
-
-mutual
-  def T.size : T → Nat
-    | .node _ _ _ cs => 1 + sizeL cs
-  def sizeL : List T → Nat
-    | [] => 0
-    | c :: cs => c.size + sizeL cs
-end
 
 theorem sizeL_append (a b : List T) : sizeL (a ++ b) = sizeL a + sizeL b := by
   induction a with
@@ -80,5 +74,20 @@ theorem c06_dissolve_decreases (x : Nat) (t : T) (h : t.hasBelow x = true) : (t.
 theorem c06_remove_decreases (x : Nat) (t : T) (h : t.hasBelow x = true) : (t.remove x).size < t.size := by
   refine (size_replace_le x (fun _ => []) ?_ t).2 h
   intro c _; rw [T.size_eq]; simp only [sizeL]; omega
+
+/-- **C06 (`fix_paragraphs` reaches its fixed point).**  The loop `while self._fix_paragraphs(node)`
+ends: a round keeps the number of nodes and strictly increases the sum of all node depths, which
+never exceeds the square of the number of nodes; after at most that many rounds nothing is left
+to move.  For every tree. -/
+theorem c06_fix_paragraphs_reaches_fixed_point (t : T) :
+    (fixParagraphs (t.size * t.size) t).fixParaStep = none :=
+  fixParagraphs_fixed (t.size * t.size) t (Nat.le_add_right _ _)
+
+theorem c06_fix_paragraphs_round (t t' : T) (h : t.fixParaStep = some t') :
+    t'.size = t.size ∧ t.depthSum 0 < t'.depthSum 0 := fixParaStep_measure t t' 0 h
+
+/-- a round does happen on some tree (the premise of the round theorem is satisfiable). -/
+example : (T.node 0 0 [] [.node 1 kSection [] [.node 2 0 [] []], .node 3 kPara [] []]).fixParaStep
+    = some (.node 0 0 [] [.node 1 kSection [] [.node 2 0 [] [], .node 3 kPara [] []]]) := by rfl
 
 end MwVerif.Tree
